@@ -45,6 +45,7 @@ def evaluate(ctx, vh, args, sub="c16"):
     with ThreadPoolExecutor(max_workers=8) as ex:
         results = list(ex.map(lambda f: common.coqc_file(f, cwd=out_dir), rep["files"]))
     mm, sm, pv, ng, cc = [], [], [], 0, []
+    evaluate.pg = 0
     for ok, cout in results:
         if not ok:
             raise Broken("the models could not be evaluated on the recorded traces (cases file does not check)", cout[-3000:])
@@ -55,6 +56,7 @@ def evaluate(ctx, vh, args, sub="c16"):
         c = common.parse_print(cout, "PV")
         pv += [(c[i], c[i + 1], c[i + 2]) for i in range(0, len(c), 3)]
         ng += common.parse_print(cout, "NG")[0]
+        evaluate.pg += common.parse_print(cout, "PG")[0]
         cc += common.parse_print(cout, "CC")
     return rep, cases, mm, sm, pv, ng, cc
 
@@ -148,7 +150,7 @@ def run(ctx):
         "op_histogram": rep["op_histogram"], "obs_histogram": rep["obs_histogram"], "tag_histogram": rep["tag_histogram"],
         "reverts": rep["reverts"], "max_snapshot_depth": rep["max_snapshot_depth"],
         "adapter_panics": rep["impl_panics"],
-        "guarded_cases": ng,
+        "guarded_cases": ng, "cases_inside_the_scope_of_C16_bisim": evaluate.pg,
         "cases_by_first_class": {str(k): sum(1 for x in cc if x == k) for k in range(6)},
         "adapter_model_mismatches": len(mm), "spec_model_mismatches": len(sm),
         "adapter_vs_reference_differences": len(pv),
@@ -177,7 +179,7 @@ def run(ctx):
         "themes": erep.get("themes"), "opcode_features": erep.get("opcode_features"),
         "tx_outcomes_adapter": erep.get("tx_outcomes"), "tx_outcomes_reference": erep.get("tx_outcomes_ref"),
         "tx_differences": len(erep.get("tx_differences") or []), "trace_divergence": erep.get("trace_divergence"),
-        "guarded_scenarios": eng, "adapter_model_mismatches": len(emm), "spec_model_mismatches": len(esm),
+        "guarded_scenarios": eng, "scenarios_inside_the_scope_of_C16_bisim": evaluate.pg, "adapter_model_mismatches": len(emm), "spec_model_mismatches": len(esm),
         "adapter_vs_reference_by_class": {str(k): sum(1 for x in epv if x[2] == k) for k in range(6)},
         "explanation": "each scenario = 2-6 transactions (message calls and contract creations over generated bytecode: storage, "
                        "nested calls with value, reverting / out-of-gas callees, CREATE/CREATE2, SELFDESTRUCT, logs, precompiles incl. "
